@@ -276,7 +276,9 @@ def post_group_32(args, kwargs, pre, out):
 def post_wif(args, kwargs, pre, out):
     ctx = contracts.ctx()
     self = args[0]
-    compressed = bool(_arg(args, kwargs, 1, "compressed", True))
+    # without an argument the key's own compression flag decides (a key parsed from an uncompressed WIF re-encodes to it)
+    compressed = _arg(args, kwargs, 1, "compressed", None)
+    compressed = bool(getattr(self, "compressed", True)) if compressed is None else bool(compressed)
     network = getattr(self, "network", None)
     secret = getattr(self, "secret", None)
     if network not in te.WIF_VER or not isinstance(secret, int) or not 1 <= secret < N:
@@ -584,6 +586,9 @@ def wif_workload(ctx, rng, idx, n, p):
                         ctx.violation("wif-roundtrip", f"parse(wif) gave {(b.secret, b.compressed, b.network)!r}", case)
                     if _try(b.wif, compressed=b.compressed) != w:
                         ctx.violation("wif-roundtrip", "wif(parse(s)) != s", case)
+                    ctx.count("wif:reencode-without-argument")
+                    if _try(b.wif) != w:
+                        ctx.violation("wif-roundtrip:default-ignores-key-compression", f"parse(s).wif() gave {_try(b.wif)[1]!r} for s = {w[1]!r}", case)
                 # corrupted characters must be rejected (decided by the PrivateKey.parse contract)
                 s = w[1]
                 for _ in range(4):
